@@ -104,7 +104,7 @@ class DateConvertor(Convertor[date]):
 
 @mypyc_attr(allow_interpreted_subclasses=True)
 class AnyConvertor(Convertor[str]):
-    regex = ".*"
+    regex = "(?s:.*)"
 
     def to_python(self, value: str) -> str:
         return value
